@@ -45,6 +45,21 @@ CHILDREN = [
 ]
 
 
+class _L(list):
+    """an array as some JSON / YAML / TOML readers return it: a list subclass"""
+
+
+class _S(str):
+    """a string subclass"""
+
+
+import collections as _collections
+
+# values of the JSON kinds that are instances of subclasses of dict / list / str
+CHILDREN += [_collections.OrderedDict([("a", 1), ("b", [])]), _collections.OrderedDict(), _L([1, {"a": 1}]), _L(), _S("abc"),
+             {"a": _S("xy"), "b": _L([0])}, {"a": _collections.OrderedDict([("k", 1)])}]
+
+
 def sigs():
     out = {}
     for n in range(3):
